@@ -343,7 +343,19 @@ pub fn run_parse(ctx: &mut Ctx, case: &Value, opts: &Opts) {
             Ok(_) => String::new(),
             Err(e) => e.to_string(),
         };
-        let line = json!({"i": ctx.line, "k": "parse", "o": g, "text": text});
+        #[allow(unused_mut)]
+        let mut line = json!({"i": ctx.line, "k": "parse", "o": g, "text": text});
+        #[cfg(feature = "pt")]
+        {
+            // typed API, where the build has it
+            let (t, _) = parse_outcome::<purl::PackageType>(&s);
+            let ttext = match GenericPurl::<purl::PackageType>::from_str(&s) {
+                Ok(_) => String::new(),
+                Err(e) => e.to_string(),
+            };
+            line["ot"] = t;
+            line["ttext"] = json!(ttext);
+        }
         if let Some(f) = ctx.transcript.as_mut() {
             writeln!(f, "{}", line).expect("write transcript");
         }
